@@ -37,13 +37,9 @@ theorem unready_eq (g : GClass) : (unready.body g).state = { g with precedence :
     to the most specific one and `precedence` is the class, that list, the base class and t. -/
 theorem mergeSupers_spec (H : Heap) (g : GClass) :
     mergeSupers.body H g =
-      if g.supers.all (readyIn H) then
-        Ctl.ret { g with
-          inherit := mergedInherit H g.supers,
-          initForms := initFormsOf H g.slotDefs (mergedInherit H g.supers),
-          precedence := precedenceOf g (mergedInherit H g.supers) } true
-      else Ctl.ret { g with inherit := [] } false := by
-  unfold mergeSupers.body
+      if g.supers.all (readyIn H) then Ctl.ret (mergedClass H g) true
+      else Ctl.ret (failedClass g) false := by
+  unfold mergeSupers.body mergedClass failedClass
   simp only []
   -- loop 1: the direct superclasses
   rw [forRange_guard (fun x => H.isNil x || (H.precOf x).length == 0)
@@ -140,3 +136,252 @@ theorem mergeSupers_spec (H : Heap) (g : GClass) :
   generalize (decide (0 < g.baseClass.toList.length) &&
       ([Sym.cls g.name] ++ List.map Sym.cls (mergedInherit H g.supers)).getLast? != g.baseClass) = b
   cases b <;> rfl
+
+/-! ## makeClassesReady -/
+
+/-- one merge attempt of the class registered as `sc`: `sc.mergeSupers()` on the object in the table -/
+def mergeStep (h : Heap) (sc : Name) : Heap := h.put (mergeSupers.body h (h.getD sc)).state
+
+def mergeOk (h : Heap) (sc : Name) : Bool := (mergeSupers.body h (h.getD sc)).value false
+
+theorem abs_mergeStep {h : Heap} (hn : NodupNames h) {sc : Name} {g : GClass}
+    (hg : h.get? sc = some g) (hnr : g.precedence = []) :
+    abs (mergeStep h sc) = tryReady (abs h) sc ∧
+    (mergeOk h sc = true → nr (abs (mergeStep h sc)) < nr (abs h)) ∧
+    (mergeOk h sc = false → abs (mergeStep h sc) = abs h) := by
+  have hname : g.name = sc := Heap.get?_name hg
+  have hg' : h.get? g.name = some g := by rw [hname]; exact hg
+  have hfind : find (abs h) sc = some (absEntry g) := by rw [find_abs, hg]; rfl
+  have hinh : (absEntry g).inh = none := by simp [absEntry, absInh, hnr]
+  unfold mergeStep mergeOk
+  rw [getD_of_get? hg, mergeSupers_spec]
+  by_cases hr : g.supers.all (readyIn h) = true
+  · simp only [hr, if_true, Ctl.state, Ctl.value]
+    have hm : Clos.mergeSupers (abs h) (absEntry g).defn = some (mergedInherit h g.supers) := by
+      show Clos.mergeSupers (abs h) (absDef g) = _
+      rw [mergeSupers_abs, if_pos hr]
+    have htry : tryReady (abs h) sc = setInh (abs h) sc (some (mergedInherit h g.supers)) := by
+      unfold tryReady; simp [hfind, hinh, hm]
+    have hput : abs (h.put (mergedClass h g)) = setInh (abs h) sc (some (mergedInherit h g.supers)) := by
+      rw [abs_put (g := g) (g' := mergedClass h g) hn hg' rfl rfl, hname]
+      simp [absInh, mergedClass, precedenceOf_ne_nil]
+    refine ⟨by rw [hput, htry], fun _ => ?_, fun hf => by simp at hf⟩
+    rw [hput]
+    exact nr_setInh_lt sc _ hfind hinh
+  · simp only [hr, Ctl.state, Ctl.value]
+    have hm : Clos.mergeSupers (abs h) (absEntry g).defn = none := by
+      show Clos.mergeSupers (abs h) (absDef g) = _
+      rw [mergeSupers_abs, if_neg hr]
+    have htry : tryReady (abs h) sc = abs h := by
+      unfold tryReady; simp [hfind, hinh, hm]
+    have hput : abs (h.put (failedClass g)) = abs h :=
+      abs_put_same hg' rfl (by simp [failedClass, absEntry, absDef, absInh, hnr])
+    simp only [Bool.false_eq_true, if_false]
+    exact ⟨by rw [hput, htry], fun hf => by simp at hf, fun _ => hput⟩
+
+/-- the body of the inner loop of makeClassesReady for one class of the `not` list -/
+def roundStep (s : makeClassesReady.St) (sc : Name) : makeClassesReady.St :=
+  if Ready (s.heap.getD sc) then s
+  else { s with heap := mergeStep s.heap sc, changed := if mergeOk s.heap sc then true else s.changed }
+
+theorem allClasses_mergeStep (h : Heap) (sc : Name) : (mergeStep h sc).allClasses = h.allClasses :=
+  allClasses_put _ h
+
+/-- what one round does, seen from the hand model: merge attempts in the order of the `not` list;
+    the `changed` flag is raised exactly when the number of classes that are not ready went down -/
+theorem round_fold : ∀ (xs : List Name) (s : makeClassesReady.St), NodupNames s.heap →
+    (∀ x ∈ xs, x ∈ s.heap.allClasses) →
+    abs (xs.foldl roundStep s).heap = xs.foldl tryReady (abs s.heap) ∧
+    (xs.foldl roundStep s).heap.allClasses = s.heap.allClasses ∧
+    (xs.foldl roundStep s).not_ = s.not_ ∧
+    ((xs.foldl roundStep s).changed = false → s.changed = false ∧ abs (xs.foldl roundStep s).heap = abs s.heap) ∧
+    ((xs.foldl roundStep s).changed = true → s.changed = true ∨ nr (abs (xs.foldl roundStep s).heap) < nr (abs s.heap))
+  | [], s, _, _ => by simp
+  | x :: xs, s, hn, hx => by
+    have hxs : x ∈ s.heap.allClasses := hx x (by simp)
+    obtain ⟨g, hg⟩ := get?_of_mem_allClasses hxs
+    simp only [List.foldl_cons]
+    -- the first step
+    have hstep : NodupNames (roundStep s x).heap ∧ (roundStep s x).heap.allClasses = s.heap.allClasses ∧
+        (roundStep s x).not_ = s.not_ ∧ abs (roundStep s x).heap = tryReady (abs s.heap) x ∧
+        ((roundStep s x).changed = false → s.changed = false ∧ abs (roundStep s x).heap = abs s.heap) ∧
+        ((roundStep s x).changed = true → s.changed = true ∨ nr (abs (roundStep s x).heap) < nr (abs s.heap)) := by
+      unfold roundStep
+      rw [getD_of_get? hg, ready_eq]
+      by_cases hp : g.precedence = []
+      · simp only [hp, ne_eq, not_true_eq_false, decide_false, Bool.false_eq_true, if_false]
+        obtain ⟨h1, h2, h3⟩ := abs_mergeStep hn hg hp
+        refine ⟨by unfold NodupNames; rw [allClasses_mergeStep]; exact hn, allClasses_mergeStep _ _, trivial, h1, ?_, ?_⟩
+        · intro hc
+          cases hok : mergeOk s.heap x with
+          | true => simp [hok] at hc
+          | false => simp only [hok, Bool.false_eq_true, if_false] at hc; exact ⟨hc, h3 hok⟩
+        · intro hc
+          cases hok : mergeOk s.heap x with
+          | true => exact Or.inr (h2 hok)
+          | false => simp only [hok, Bool.false_eq_true, if_false] at hc; exact Or.inl hc
+      · simp only [hp, ne_eq, not_false_eq_true, decide_true, if_true]
+        have hfind : find (abs s.heap) x = some (absEntry g) := by rw [find_abs, hg]; rfl
+        have htry : tryReady (abs s.heap) x = abs s.heap := by
+          unfold tryReady
+          simp [hfind, absEntry, absInh, hp]
+        exact ⟨hn, trivial, trivial, htry.symm, fun hc => ⟨hc, trivial⟩, fun hc => Or.inl hc⟩
+    obtain ⟨hn1, ha1, hnot1, habs1, hf1, ht1⟩ := hstep
+    have ih := round_fold xs (roundStep s x) hn1 (fun y hy => by rw [ha1]; exact hx y (by simp [hy]))
+    obtain ⟨i1, i2, i3, i4, i5⟩ := ih
+    refine ⟨by rw [i1, habs1], by rw [i2, ha1], by rw [i3, hnot1], ?_, ?_⟩
+    · intro hc
+      obtain ⟨c1, c2⟩ := i4 hc
+      obtain ⟨c3, c4⟩ := hf1 c1
+      exact ⟨c3, by rw [c2, c4]⟩
+    · intro hc
+      have hle1 : nr (abs (roundStep s x).heap) ≤ nr (abs s.heap) := by rw [habs1]; exact nr_tryReady_le _ _
+      have hle2 : nr (abs (xs.foldl roundStep (roundStep s x)).heap) ≤ nr (abs (roundStep s x).heap) := by
+        rw [i1]; exact nr_foldl_le _ _
+      rcases i5 hc with c1 | c1
+      · rcases ht1 c1 with c2 | c2
+        · exact Or.inl c2
+        · exact Or.inr (by omega)
+      · exact Or.inr (by omega)
+
+/-- the classes makeClassesReady collects first: those of the table that are not ready -/
+def notReady (h : Heap) : List Name := h.allClasses.filter (fun c => !(Ready (h.getD c)))
+
+/-- one round of the loop of makeClassesReady -/
+def roundOf (s : makeClassesReady.St) : makeClassesReady.St :=
+  s.not_.foldl roundStep { s with changed := false }
+
+theorem ready_getD_iff {h : Heap} {c : Name} (hc : c ∈ h.allClasses) :
+    Ready (h.getD c) = true ↔ ∃ l, inhOf (abs h) c = some l := by
+  obtain ⟨g, hg⟩ := get?_of_mem_allClasses hc
+  rw [getD_of_get? hg, ready_eq, inhOf_abs]
+  have : readyIn h c = decide (g.precedence ≠ []) := by
+    unfold readyIn Heap.isNil Heap.precOf
+    cases hp : g.precedence <;> simp [hg, hp]
+  rw [this]
+  by_cases hp : g.precedence = [] <;> simp [hp]
+
+/-- makeClassesReady, seen from the hand model: the new table is reached from the old one by merge
+    attempts (`tryReady`) in some order, and it is a fixed point: no class that is still not ready
+    could be merged.  Needs fuel for one round more than there are classes that are not ready. -/
+theorem makeClassesReady_spec (fuel : Nat) (h : Heap) (hn : NodupNames h) (hfuel : nr (abs h) < fuel) :
+    (∃ cs : List Name, abs (makeClassesReady fuel h) = cs.foldl tryReady (abs h)) ∧
+    Fix (abs (makeClassesReady fuel h)) ∧
+    NodupNames (makeClassesReady fuel h) ∧ (makeClassesReady fuel h).allClasses = h.allClasses := by
+  unfold makeClassesReady makeClassesReady.body
+  simp only []
+  -- the first loop collects the classes that are not ready
+  rw [forRange_fold (fun s c => if Ready (s.heap.getD c) then s else { s with not_ := s.not_ ++ [c] })]
+  rotate_left
+  · intro c s
+    left
+    by_cases hr : Ready (s.heap.getD c) = true <;> simp [hr]
+  have hcollect : ∀ (xs : List Name) (s : makeClassesReady.St),
+      xs.foldl (fun s c => if Ready (s.heap.getD c) then s else { s with not_ := s.not_ ++ [c] }) s
+        = { s with not_ := s.not_ ++ xs.filter (fun c => !(Ready (s.heap.getD c))) } := by
+    intro xs
+    induction xs with
+    | nil => intro s; simp
+    | cons x xs ih =>
+      intro s
+      simp only [List.foldl_cons, ih]
+      by_cases hr : Ready (s.heap.getD x) = true <;> simp [hr]
+  rw [hcollect]
+  simp only [List.nil_append, Ctl.seq]
+  show _ ∧ _ ∧ _ ∧ _
+  by_cases hnot : notReady h = []
+  · -- every class is ready
+    have hnot' : List.filter (fun c => !Ready (Heap.getD h c)) (Heap.allClasses h) = [] := hnot
+    simp only [hnot', List.length_nil, Nat.lt_irrefl, decide_false, Bool.false_eq_true, if_false, Ctl.state]
+    refine ⟨⟨[], rfl⟩, ?_, hn, trivial⟩
+    intro c e hf hi
+    exfalso
+    have hc : c ∈ h.allClasses := by rw [← names_abs]; exact find_mem_names hf
+    have hmem : c ∉ notReady h := by rw [hnot]; simp
+    have hr : Ready (h.getD c) = true := by
+      by_cases hr : Ready (h.getD c) = true
+      · exact hr
+      · exact absurd (List.mem_filter.2 ⟨hc, by simpa using hr⟩) hmem
+    obtain ⟨l, hl⟩ := (ready_getD_iff hc).1 hr
+    simp [inhOf, hf, hi] at hl
+  · have hpos : decide (0 < (List.filter (fun c => !Ready (Heap.getD h c)) (Heap.allClasses h)).length) = true := by
+      have : notReady h ≠ [] := hnot
+      have := List.length_pos_iff.2 this
+      simpa [notReady] using this
+    simp only [hpos, if_true]
+    -- the rounds
+    rw [forEver_eq _ roundOf (fun s => !s.changed)]
+    rotate_left
+    · intro s
+      rw [forRange_fold roundStep]
+      · simp only [Ctl.seq, roundOf]
+        rfl
+      · intro sc s
+        left
+        unfold roundStep mergeStep mergeOk
+        by_cases hr : Ready (s.heap.getD sc) = true
+        · simp [hr]
+        · simp only [hr, Bool.not_false, if_true, Bool.false_eq_true, if_false]
+          cases (mergeSupers.body s.heap (s.heap.getD sc)).value false <;> simp
+    obtain ⟨s0, ⟨hn0, hsub0⟩, hrel, hstop, hrun⟩ := iterUntil_spec
+      (f := roundOf) (stop := fun s => !s.changed) (m := fun s => nr (abs s.heap))
+      (I := fun s => NodupNames s.heap ∧ ∀ x ∈ s.not_, x ∈ s.heap.allClasses)
+      (R := fun a b => (∃ cs : List Name, abs b.heap = cs.foldl tryReady (abs a.heap)) ∧ b.heap.allClasses = a.heap.allClasses ∧ b.not_ = a.not_)
+      (by
+        intro s ⟨hns, hsub⟩
+        obtain ⟨h1, h2, h3, _, _⟩ := round_fold s.not_ { s with changed := false } hns hsub
+        refine ⟨⟨?_, ?_⟩, ⟨s.not_, h1⟩, h2, h3⟩
+        · unfold NodupNames roundOf; rw [h2]; exact hns
+        · intro x hx
+          unfold roundOf at hx ⊢
+          rw [h3] at hx
+          rw [h2]; exact hsub x hx)
+      (by
+        intro a b c ⟨⟨cs1, e1⟩, a1, n1⟩ ⟨⟨cs2, e2⟩, a2, n2⟩
+        exact ⟨⟨cs1 ++ cs2, by rw [e2, e1, List.foldl_append]⟩, by rw [a2, a1], by rw [n2, n1]⟩)
+      (by
+        intro s ⟨hns, hsub⟩ hst
+        obtain ⟨_, _, _, _, h5⟩ := round_fold s.not_ { s with changed := false } hns hsub
+        have hc : (roundOf s).changed = true := by simpa using hst
+        rcases h5 hc with e | e
+        · simp at e
+        · exact e)
+      fuel { heap := h, not_ := notReady h, changed := false }
+      ⟨hn, fun x hx => (List.mem_filter.1 hx).1⟩ hfuel
+    have hrun' : iterUntil roundOf (fun s => !s.changed) fuel
+        { heap := h, not_ := List.filter (fun c => !Ready (Heap.getD h c)) (Heap.allClasses h), changed := false }
+        = roundOf s0 := hrun
+    rw [hrun']
+    simp only [Ctl.state]
+    -- the last round changed nothing
+    obtain ⟨l1, l2, l3, l4, _⟩ := round_fold s0.not_ { s0 with changed := false } hn0 hsub0
+    have hch : (roundOf s0).changed = false := by simpa using hstop
+    obtain ⟨_, hsame⟩ := l4 hch
+    have hsame' : abs (roundOf s0).heap = abs s0.heap := hsame
+    have hfixed : s0.not_.foldl tryReady (abs s0.heap) = abs s0.heap := l1.symm.trans hsame
+    -- the state before the last round, relative to the start
+    have hrel0 : (∃ cs : List Name, abs s0.heap = cs.foldl tryReady (abs h)) ∧ s0.heap.allClasses = h.allClasses ∧ s0.not_ = notReady h := by
+      rcases hrel with e | ⟨r1, r2, r3⟩
+      · rw [e]; exact ⟨⟨[], rfl⟩, rfl, rfl⟩
+      · exact ⟨r1, r2, r3⟩
+    obtain ⟨⟨cs, hcs⟩, hall0, hnot0⟩ := hrel0
+    have hall1 : (roundOf s0).heap.allClasses = h.allClasses := by
+      have : (roundOf s0).heap.allClasses = s0.heap.allClasses := l2
+      rw [this, hall0]
+    refine ⟨⟨cs, by rw [hsame', hcs]⟩, ?_, by unfold NodupNames; rw [hall1]; exact hn, hall1⟩
+    rw [hsame']
+    intro c e hf hi
+    have hc : c ∈ h.allClasses := by
+      rw [← hall0, ← names_abs]; exact find_mem_names hf
+    -- c was not ready at the start either, so it is on the `not` list
+    have hcnot : c ∈ s0.not_ := by
+      rw [hnot0]
+      refine List.mem_filter.2 ⟨hc, ?_⟩
+      by_cases hr : Ready (h.getD c) = true
+      · exfalso
+        obtain ⟨l, hl⟩ := (ready_getD_iff hc).1 hr
+        have := inhOf_foldl_tryReady_of_some cs hl
+        rw [← hcs] at this
+        simp [inhOf, hf, hi] at this
+      · simpa using hr
+    exact merge_none_of_tryReady_eq hf hi (foldl_fixed _ _ hfixed c hcnot)
